@@ -147,7 +147,7 @@ def run_cell(args):
         names = [n for n in os.listdir(folder) if n.endswith(".mhl")] if os.path.isdir(folder) else []
         line = {"tid": "time-%d" % k, "i": 0, "zone": zone, "t": t_file, "now": t_now, "size": size, "exit": res.exit_code, "op": {"op": "create"},
                 "exc": "" if res.exception is None or isinstance(res.exception, SystemExit) else "%s: %s" % (type(res.exception).__name__, res.exception),
-                "off_t": true_offset(zone, t_file), "off_now": true_offset(zone, t_now), "dates": [], "size_written": -1, "fname_ok": False}
+                "off_t": true_offset(zone, t_file), "off_now": true_offset(zone, t_now), "dates": [], "flat": [], "flat_exit": -1, "size_written": -1, "fname_ok": False}
         if names:
             with open(os.path.join(folder, names[0]), "rb") as fh:
                 m = PJ.parse_manifest(fh.read())
@@ -166,6 +166,27 @@ def run_cell(args):
                 pr = parse_iso(s)
                 line["dates"].append({"what": what, "text": s or "", "wellformed": pr is not None, "instant": int(pr[0]) if pr else -1,
                                       "offset": pr[1] if pr else 0, "true_instant": inst, "true_offset": true_offset(zone, inst)})
+            # the same dates carried into a packing list by a flatten that runs in another zone: same instants
+            other = "Asia/Tokyo" if zone != "Asia/Tokyo" else "America/New_York"
+            os.environ["TZ"] = other
+            time.tzset()
+            with Shim():
+                _FAKE["now"] = t_now + 3600.25
+                res2 = CliRunner(mix_stderr=False).invoke(C.flatten, [w.root, w.flat_dest], catch_exceptions=True)
+            line["flat_exit"] = res2.exit_code
+            fl = []
+            for dp, dn, fs in os.walk(w.flat_dest):
+                for fn in fs:
+                    if fn.endswith(".mhl"):
+                        with open(os.path.join(dp, fn), "rb") as fh:
+                            fm = PJ.parse_manifest(fh.read())
+                        for r in fm.get("files", []):
+                            if os.path.basename(r["path"]) == os.path.basename(p):
+                                for what, s_, inst in (("flat hashdate", r["ents"][0]["hashdate"], t_now),):      # (the tool's reader does not read lastmodificationdate back: not carried)
+                                    pr = parse_iso(s_)
+                                    fl.append({"what": what, "text": s_ or "", "wellformed": pr is not None, "instant": int(pr[0]) if pr else -1,
+                                               "offset": pr[1] if pr else 0, "true_instant": inst, "true_offset": true_offset(zone, inst)})
+            line["flat"] = fl
         return line
     finally:
         w.destroy()
